@@ -12,11 +12,11 @@ TRACE_NOTE = ("Trusted: TLC; the cfg(n2_verif) hooks emit events at the lineariz
 
 CHECKS = {
  "C01": ("model_checking", "TLC checks ordering/no-restart invariants of the scheduler specification (N2Work) over every interleaving of all 3-step graphs; every start event recorded from the real scheduler under enumerated and random completion orders is validated by the trace specification (TraceObs) against the declared graph.", "5 C01", "TLA+ spec N2Work model-checked with TLC + TLC trace validation (TraceObs) of in-process executions under scripted completion orders"),
- "C04": ("model_checking", "TLC checks -j and pool-depth invariants and the code's pool counters on the specification for all pool assignments/depths/-j over 3-step graphs; in recorded executions the number of running commands is recomputed from start/finish events at every start and compared with -j and the declared depth.", "5 C04", "TLA+ spec N2Work model-checked with TLC + TLC trace validation (TraceObs) with pool-heavy scenarios"),
+ "C04": ("model_checking", "TLC checks -j and pool-depth invariants and the code's pool counters on the specification for all pool assignments/depths/-j over 3-step graphs; in recorded executions the number of running commands is recomputed from start/finish events at every start and compared with -j and the declared depth (families: all-dirty pools, pools with up-to-date members settled mid-invocation, pools whose declaration changes across a manifest regeneration). The arithmetic of BuildStates::set that the counters rest on (SchedCore, shared by N2Sched/N2Work/TraceObs) is additionally checked inductively with Apalache for every consistent state of up to 4 (quick) / 7 (thorough) steps.", "5 C04, 12.13", "TLA+ spec N2Work model-checked with TLC + Apalache inductive check of the bookkeeping lemma (SchedCore) + TLC trace validation (TraceObs) with pool-heavy scenarios"),
  "C05": ("model_checking", "TLC checks containment, budget, exit-status and keep-going invariants for every failing subset, -k and completion order on the specification; recorded executions with failing/interrupted commands are validated event by event (no start below a failure, no record after failure, budget, exit status, keep-going completeness).", "5 C05", "TLA+ spec N2Work model-checked with TLC + TLC trace validation (TraceObs) with fault outcomes per command"),
  "C06": ("model_checking", "TLC checks absence of the internal-error state, correct cycle/pool errors and termination (liveness under weak fairness) on the specification incl. cyclic and cyclic-through-validation graphs and phase-1 reuse; recorded executions must end without panic/hang/livelock, with a valid cycle diagnostic exactly when the ordering closure is cyclic, and validation targets must not hold a step back (adversarial 'hold' schedules).", "5 C06", "TLA+ spec N2Work model-checked with TLC (safety + liveness) + TLC trace validation (TraceObs) incl. hang/livelock watchdog"),
- "C18": ("model_checking", "TLC checks started ⊆ Needed(targets) and wanted = Needed(targets) on the specification for all target subsets; recorded executions: every start is inside the closure computed from the declared graph, the set of steps n2 considered equals the closure, unknown names are rejected before anything runs.", "5 C18", "TLA+ spec N2Work model-checked with TLC + TLC trace validation (TraceObs) over target subsets/defaults"),
- "C19": ("model_checking", "TLC checks counts = cardinalities, pending and monotonicity on the specification; every progress update recorded from the real code is compared with the state of the mirrored steps and with the commands actually running (from start/finish events), the final summary with the number of successful commands.", "5 C19", "TLA+ spec N2Work model-checked with TLC + TLC trace validation (TraceObs) of every Progress::update"),
+ "C18": ("model_checking", "TLC checks started ⊆ Needed(targets) and wanted = Needed(targets) on the specification for all target subsets; recorded executions: every start is inside the closure computed from the declared graph, the set of steps n2 considered equals the closure, unknown names are rejected before anything runs; histories declare builddir and keep the project in a subdirectory reached with -C: the only build log must be the one in the declared builddir and n2 must work in the requested directory; when a regeneration is not followed by a reload, what n2 then does is judged against the manifest text on disk.", "5 C18, 12.13", "TLA+ spec N2Work model-checked with TLC + TLC trace validation (TraceObs) over target subsets/defaults, builddir, -C, -f"),
+ "C19": ("model_checking", "TLC checks counts = cardinalities, pending and monotonicity on the specification; every progress update recorded from the real code is compared with the state of the mirrored steps and with the commands actually running (from start/finish events), the final summary with the number of successful commands (also against the count the history model N2Hist predicts). The bookkeeping lemma (counts, pending, ready queue are functions of the state map; SchedCore) is checked inductively with Apalache for every consistent state of up to 4 (quick) / 7 (thorough) steps.", "5 C19, 12.13", "TLA+ spec N2Work model-checked with TLC + Apalache inductive check of the bookkeeping lemma (SchedCore) + TLC trace validation (TraceObs) of every Progress::update"),
  "C02": ("model_checking", "TLC checks clean-build equivalence (file contents as provenance terms, compared with what a from-scratch build would produce) for the manifest rule over all histories of <= 5-6 operations (edit/touch/delete sources, outputs, header; change includes; switch manifest versions; target subsets; failing commands; restat) on three project variants, and shows that dropping any signature component breaks it; the same rule (same TLA+ operators) is evaluated on the mirrored store of recorded histories of the real n2: a wanted step left unbuilt while the rule calls it dirty, a missing or spurious log record, is a violation.", "5 C02", "TLA+ spec N2Hist/N2Store model-checked with TLC + TLC trace validation (TraceObs store mirror) of multi-invocation histories"),
  "C03": ("model_checking", "TLC checks on N2Hist that after a successful invocation the same request would run nothing (also after an identity-preserving manifest rewrite and after restat); on recorded histories every start must be of a step the rule calls dirty on the mirrored store, and an immediately repeated invocation must start nothing.", "5 C03", "TLA+ spec N2Hist/N2Store model-checked with TLC + TLC trace validation (TraceObs) of multi-invocation histories"),
  "C08": ("model_checking", "The log is mirrored record by record from what n2 wrote (outputs, deps, hash token); at every load the state n2 reports per step must equal the latest applicable record of the mirror under the current manifest; histories reorder/rename/re-style/include-split the manifest and move or drop outputs. TLC checks attribution (C08) and no-rerun across reordered versions on N2Hist.", "5 C08", "TLA+ spec N2Store/N2Hist model-checked with TLC + TLC trace validation (TraceObs log mirror) across manifest rewrites"),
